@@ -114,10 +114,42 @@ def part1(ctx, survey, g20):
 NARY, RANGES, SUPERSET = 2, 7, 8
 
 
+# serial build (no MPI): sc_MPI_Isend / Recv / Iprobe / Reduce_scatter abort, so only these rounds are legal there
+# (type -> set of (min (mode, 1), pay); "v": payloadv); with a payload above the eager threshold the payload travels by
+# Isend as soon as there is a receiver.  Rounds dropped from the serial scenario stay in the MPI scenario.
+SERIAL_USE = {0: {(0, 0), (0, 1), (1, 0), (1, 3)}, 1: {(0, 0), (0, 1), (1, 0), (1, 3)},
+              2: {(m, p) for m in (0, 1) for p in (0, 1, 2, 3)} | {(0, "v")}, 3: {(m, p) for m in (0, 1) for p in (0, 1, 2, 3)} | {(0, "v")},
+              7: {(m, p) for m in (0, 1) for p in (0, 1, 2, 3)} | {(0, "v")}}
+NO_ROUND_TYPES = (5,)        # SC_NOTIFY_RSX needs MPI_Win_create, which the Open MPI of this machine refuses (MPI_ERR_WIN)
+
+
+class U(str):
+    """an operation that is left out of the serial scenario"""
+
+
+def serial_ok(t, mode, pay, eager):
+    if (min(mode, 1), pay) not in SERIAL_USE.get(t, ()):
+        return False
+    if pay in (2, "v") and eager < 4:
+        return False      # memcpy (NULL, .., 0) at sc_notify.c:2912 (in-place payload, nobody notifies this rank): UBSan stops the sanitizer build
+    return not (pay in (1, 2) and mode >= 1 and eager < 4)
+
+
+def use_op(t, k, mode, pay, eager):
+    txt = "usev %d %d" % (k, mode) if pay == "v" else "use %d %d %d" % (k, mode, pay)
+    return txt if serial_ok(t, mode, pay, eager) else U(txt)
+
+
+def lines_of(ops):
+    return ";".join(ops), ";".join(o for o in ops if not isinstance(o, U))
+
+
 def gen_scenarios(rng, n):
+    """list of (scenario for the MPI build, the same without the rounds the serial build cannot run)"""
     out = []
     W = [2, 3, 5, 7, 11, 64, 1000, INT_MAX, INT_MAX - 1]
     E = [0, 1, 0x400, 0xffffffff, 0x100000000, (1 << 63) - 1, 1 << 63, (1 << 64) - 1]
+    ALLW = "getw 0 1 1 1 0 0 0"
     # systematic: every mask of the width getter with pairwise different values, all types, boundaries of every scalar
     for (a, b, c) in ((3, 5, 7), (INT_MAX, 2, 1000), (11, 11, 13), (2, INT_MAX, INT_MAX - 1)):
         ops = ["new 0 0", "settype 0 2", "setw 0 %s %s %s" % (hx(a), hx(b), hx(c))]
@@ -140,66 +172,155 @@ def gen_scenarios(rng, n):
     out.append("defaults 2 400 4 5 6 9;new 0 0;gettype 0;setw 0 3 b d;settype 0 -1;gettype 0;getw 0 1 1 1 0 0 0;settype 0 2;getw 0 1 1 1 0 0 0")
     out.append("defaults 7 400 4 5 6 9;new 0 0;gettype 0;setnr 0 b;setpk 0 2a;settype 0 -1;gettype 0;getnr 0;getpk 0;settype 0 7;getnr 0;getpk 0")
     out.append("defaults 8 400 4 5 6 9;new 0 0;settype 0 8;setcb 0 2 5;settype 0 -1;getcb 0;gettype 0")
-    # seeded histories
+    out = [(x, x) for x in out]
+
+    # ---- set, USE, get (systematic): the objects are used between the setter and the getter ------------------------------------
+    EG = 0x400
+    ALLG = ["gettype 0", "geteager 0", "getstats 0", "getcomm 0"]
+    rounds = [(0, 0), (1, 1), (1, 2), (2, 0), (3, 1), (0, 3), (3, "v"), (0, "v"), (1, 0), (3, 2)]
+    for comm in (0, 1):
+        # n-ary widths: the FIRST round after the type was selected, later rounds, a second set on the used object, the same type
+        # selected again, another type and back; with every NULL mask after the first round
+        ops = ["new 0 %d" % comm, "settype 0 2", "setw 0 3 4 5", ALLW, use_op(2, 0, 0, 0, EG), ALLW]
+        ops += ["getw 0 %d %d %d -65 -66 -67" % (m & 1, (m >> 1) & 1, (m >> 2) & 1) for m in range(8)]
+        ops += [use_op(2, 0, 1, 1, EG), ALLW, "setw 0 7 2 9", ALLW, use_op(2, 0, 1, 2, EG), ALLW, use_op(2, 0, 0, "v", EG), ALLW,
+                "settype 0 2", ALLW, "settype 0 3", "settype 0 2", "setw 0 6 5 4", use_op(2, 0, 3, 0, EG), ALLW, use_op(2, 0, 2, 3, EG), ALLW] + ALLG
+        out.append(lines_of(ops))
+        # the controller is born n-ary (public default type): first round without / with a set before it; the public defaults
+        # change between creation and first round
+        out.append(lines_of(["defaults 2 400 4 5 6 9", "new 0 %d" % comm, use_op(2, 0, 1, 0, EG), ALLW, "setw 0 3 b d", use_op(2, 0, 1, 1, EG), ALLW]))
+        out.append(lines_of(["defaults 2 400 4 5 6 9", "new 0 %d" % comm, "setw 0 3 b d", use_op(2, 0, 0, 0, EG), ALLW, use_op(2, 0, 3, 2, EG), ALLW]))
+        out.append(lines_of(["defaults 2 400 4 5 6 9", "new 0 %d" % comm, "defaults 3 8 7 8 9 3", use_op(2, 0, 1, 0, EG), ALLW, "geteager 0", "gettype 0"]))
+        out.append(lines_of(["defaults 3 400 4 5 6 9", "new 0 %d" % comm, "settype 0 2", "defaults 3 8 7 8 9 3", use_op(2, 0, 0, 1, EG), ALLW,
+                             "setw 0 2 3 2", "settype 0 -1", "settype 0 2", use_op(2, 0, 1, 0, EG), ALLW]))
+        # ranges: both fields; the public default changes between selection and round; libsc initialised (sc_package_id = 0)
+        ops = ["new 0 %d" % comm, "settype 0 7", "setnr 0 3", "setpk 0 5"]
+        for (m, p) in rounds[:6]:
+            ops += [use_op(7, 0, m, p, EG), "getnr 0", "getpk 0"]
+        ops += ["setnr 0 40", use_op(7, 0, 1, 1, EG), "getnr 0", "getpk 0", "setpk 0 -1", use_op(7, 0, 3, "v", EG), "getpk 0", "getnr 0"] + ALLG
+        out.append(lines_of(ops))
+        out.append(lines_of(["pkgid 0", "new 0 %d" % comm, "settype 0 7", "defaults 3 400 2 2 2 7", use_op(7, 0, 1, 0, EG), "getpk 0", "getnr 0",
+                             "setpk 0 -1", use_op(7, 0, 0, 0, EG), "getpk 0", "setpk 0 3", use_op(7, 0, 3, 1, EG), "getpk 0", "getnr 0"]))
+        # superset callback and context
+        ops = ["new 0 %d" % comm, "settype 0 8"]
+        for i, (f, x) in enumerate(((1, 0), (2, 5), (3, 7), (1, 1))):
+            m, p = rounds[(2 * i) % len(rounds)]
+            ops += ["setcb 0 %d %d" % (f, x), U("use 0 %s %s" % (m, p)) if p != "v" else U("usev 0 %d" % m), "getcb 0", U("usev 0 3"), "getcb 0"]
+        out.append(lines_of(ops + ALLG))
+        # the fields every controller has, for every type and every kind of round; a statistics object is attached
+        for t in (0, 1, 2, 3, 4, 6, 7, 8):
+            ops = ["new 0 %d" % comm, "settype 0 %d" % t] + (["setcb 0 2 3"] if t == 8 else [])
+            for i, (m, p) in enumerate(rounds):
+                e = E[(i + t) % len(E)]
+                st = (i + t) % 8
+                ops += ["seteager 0 %x" % e, "setstats 0 %d" % st, use_op(t, 0, m, p, e)] + ALLG
+            ops += {2: [ALLW], 7: ["getnr 0", "getpk 0"], 8: ["getcb 0"]}.get(t, [])
+            out.append(lines_of(ops))
+        # two controllers on one communicator, rounds interleaved
+        out.append(lines_of(["new 0 %d" % comm, "new 1 %d" % comm, "settype 0 2", "settype 1 2", "setw 0 3 4 5", "setw 1 8 9 a", use_op(2, 0, 1, 0, EG),
+                             "getw 1 1 1 1 0 0 0", ALLW, use_op(2, 1, 3, 1, EG), "getw 1 1 1 1 0 0 0", ALLW, "settype 1 7", "setnr 1 2", use_op(7, 1, 1, 0, EG),
+                             use_op(2, 0, 0, 0, EG), "getnr 1", ALLW]))
+    # shared-array flavour: set, allocate / fill / gather / free, get
+    out.append(lines_of(["shset 0 1", "shuse 0 7", "shget 0", "shuse 0 0", "shget 0", "shset 0 0", "shuse 0 3", "shget 0", "shget 1", "shset 1 1", "shuse 1 7", "shuse 0 5",
+                         "shget 1", "shget 0", "shset 1 0", "shuse 1 1", "shget 1"]))
+    # option spacing: parse / print_usage / print_summary / more options between set_spacing and the observed usage message
+    out.append(lines_of(["spacingu %s %s %x" % (hx(a), hx(b), u) for (a, b) in ((-1, -1), (0, 0), (14, 20), (15, 21), (30, 50), (13, 19), (40, 32), (-5, 300))
+                         for u in (1, 2, 4, 8, 3, 15)]))
+
+    # ---- seeded histories ----------------------------------------------------------------------------------------------------
+    SMALL = [2, 3, 4, 5, 7, 11, 64]
     for _ in range(n):
         ops = []
-        dflt = dict(t=3)
+        dflt = dict(t=3, e=0x400, w=(2, 2, 2), n=25)        # initial values of the public default variables
+        pkg = -1
         if rng.random() < 0.3:
-            ops.append("pkgid 0")
-        typ, live, cbset = {}, set(), set()
+            ops.append("pkgid 0"); pkg = 0
+        typ, live, cbset, cfg = {}, set(), set(), {}
+
+        def fresh_data(k):
+            cfg[k].update(w=dflt["w"], nr=dflt["n"], pk=pkg, cb=0)
+
+        def round_ok(k):
+            t, c = typ[k], cfg[k]
+            if t in NO_ROUND_TYPES or not (0 <= t < 9):
+                return False
+            if t == NARY:
+                return all(2 <= x <= 64 for x in c["w"])
+            if t == RANGES:
+                return 1 <= c["nr"] <= 64 and c["pk"] >= -1
+            if t == SUPERSET:
+                return c["cb"] != 0
+            return True
         for _ in range(rng.randrange(8, 60)):
             r = rng.random()
             k = rng.randrange(4)
             if k not in live:
                 if r < 0.15:
                     t = rng.choice([NARY, RANGES, SUPERSET, rng.randrange(0, 9)])
-                    dflt["t"] = t
-                    ops.append("defaults %d %x %x %x %x %x" % (t, rng.choice(E + [rng.getrandbits(64)]), rng.choice(W), rng.choice(W), rng.choice(W),
-                                                                 rng.choice([1, 2, 25, INT_MAX, rng.randrange(1, 1 << 31)])))
+                    dflt = dict(t=t, e=rng.choice(E + [rng.getrandbits(64)]), w=(rng.choice(W + SMALL), rng.choice(W + SMALL), rng.choice(W + SMALL)),
+                                n=rng.choice([1, 2, 25, INT_MAX, rng.randrange(1, 1 << 31)]))
+                    ops.append("defaults %d %x %x %x %x %x" % ((t, dflt["e"]) + dflt["w"] + (dflt["n"],)))
                     continue
                 ops.append("new %d %d" % (k, rng.randrange(2)))
                 live.add(k); typ[k] = dflt["t"]; cbset.discard(k)
+                cfg[k] = dict(e=dflt["e"]); fresh_data(k)
                 continue
-            if r < 0.04:
+            if r < 0.03:
                 ops.append("destroy %d" % k); live.discard(k)
-            elif r < 0.20:
+            elif r < 0.16:
                 t = rng.choice([-1, -1, 2, 7, 8, 2, 7, 8, rng.randrange(0, 9)] + ([-1, -1, -1] if dflt["t"] in (NARY, RANGES, SUPERSET) else []))
                 nt = dflt["t"] if t == -1 else t
                 if nt != typ[k]:
-                    cbset.discard(k)
+                    cbset.discard(k); fresh_data(k)
                 typ[k] = nt
                 ops.append("settype %d %s" % (k, hx(t)))
-            elif r < 0.26:
+            elif r < 0.20:
                 ops.append("gettype %d" % k)
-            elif r < 0.34:
-                ops.append("seteager %d %x" % (k, rng.choice(E + [rng.getrandbits(64), rng.getrandbits(20)])))
-            elif r < 0.40:
+            elif r < 0.26:
+                e = rng.choice(E + [rng.getrandbits(64), rng.getrandbits(20), 3, 4])
+                cfg[k]["e"] = e
+                ops.append("seteager %d %x" % (k, e))
+            elif r < 0.30:
                 ops.append("geteager %d" % k)
-            elif r < 0.45:
+            elif r < 0.34:
                 ops.append("setstats %d %d" % (k, rng.randrange(8)))
-            elif r < 0.50:
+            elif r < 0.38:
                 ops.append("getstats %d" % k)
-            elif r < 0.53:
+            elif r < 0.40:
                 ops.append("getcomm %d" % k)
+            elif r < 0.58 and round_ok(k):
+                pay = rng.choice([0, 0, 1, 1, 2, 3, "v"])
+                ops.append(use_op(typ[k], k, rng.randrange(4), pay, cfg[k]["e"]))
             elif typ[k] == NARY:
-                if r < 0.75:
-                    ops.append("setw %d %x %x %x" % (k, rng.choice(W + [rng.randrange(2, 1 << 31)]), rng.choice(W + [rng.randrange(2, 1 << 31)]), rng.choice(W + [rng.randrange(2, 1 << 31)])))
+                if r < 0.78:
+                    ws = tuple(rng.choice(SMALL) for _ in range(3)) if rng.random() < 0.6 else tuple(rng.choice(W + [rng.randrange(2, 1 << 31)]) for _ in range(3))
+                    cfg[k]["w"] = ws
+                    ops.append("setw %d %x %x %x" % ((k,) + ws))
                 else:
                     ops.append("getw %d %d %d %d %s %s %s" % (k, rng.random() < 0.7, rng.random() < 0.7, rng.random() < 0.7,
                                                               hx(rng.randrange(-99, -1)), hx(rng.randrange(-99, -1)), hx(rng.randrange(-99, -1))))
             elif typ[k] == RANGES:
                 q = rng.randrange(4)
-                ops.append(["setnr %d %x" % (k, rng.choice([1, 2, 25, INT_MAX, rng.randrange(1, 1 << 31)])), "getnr %d" % k,
-                            "setpk %d %s" % (k, hx(rng.choice([-1, 0, 1, INT_MAX, rng.randrange(0, 1 << 31)]))), "getpk %d" % k][q])
+                if q == 0:
+                    cfg[k]["nr"] = rng.choice([1, 2, 3, 25, 64, 65, INT_MAX, rng.randrange(1, 1 << 31)])
+                    ops.append("setnr %d %x" % (k, cfg[k]["nr"]))
+                elif q == 2:
+                    cfg[k]["pk"] = rng.choice([-1, 0, 1, 5, INT_MAX, rng.randrange(0, 1 << 31)])
+                    ops.append("setpk %d %s" % (k, hx(cfg[k]["pk"])))
+                else:
+                    ops.append("getnr %d" % k if q == 1 else "getpk %d" % k)
             elif typ[k] == SUPERSET:
                 if r < 0.8 or k not in cbset:
-                    ops.append("setcb %d %d %d" % (k, rng.randrange(4), rng.randrange(8))); cbset.add(k)
+                    cfg[k]["cb"] = rng.randrange(4)
+                    ops.append("setcb %d %d %d" % (k, cfg[k]["cb"], rng.randrange(8))); cbset.add(k)
                 else:
                     ops.append("getcb %d" % k)
             else:
                 ops.append(rng.choice(["shset %d %d" % (rng.randrange(2), rng.randrange(2)), "shget %d" % rng.randrange(2),
-                                       "spacing %s %s" % (hx(rng.randrange(-3, 60)), hx(rng.randrange(-3, 90)))]))
-        out.append(";".join(ops))
+                                       "shuse %d %d" % (rng.randrange(2), rng.randrange(8)),
+                                       "spacing %s %s" % (hx(rng.randrange(-3, 60)), hx(rng.randrange(-3, 90))),
+                                       "spacingu %s %s %x" % (hx(rng.randrange(-3, 60)), hx(rng.randrange(-3, 90)), rng.randrange(1, 16))]))
+        out.append(lines_of(ops))
     return out
 
 
@@ -211,6 +332,7 @@ class AccOracle:
         self.f = {}                            # (k, field) -> value
         self.dflt = {}
 
+    # use / usev / shuse store nothing: the oracle's memory is not touched by them (that IS the property)
     def forget(self, k, fields):
         for fld in fields:
             self.f.pop((k, fld), None)
@@ -293,7 +415,7 @@ class AccOracle:
             self.shmem[a[0]] = a[1]
         elif name == "shget":
             return expect([self.shmem.get(a[0])], "sc_shmem_get_type")
-        elif name == "spacing":
+        elif name in ("spacing", "spacingu"):
             c1 = max(14, 20 if a[0] < 0 else a[0])
             return expect([c1, max(c1 + 6, 32 if a[1] < 0 else a[1])], "columns of sc_options_print_usage after sc_options_set_spacing")
         elif name == "spacing0":
@@ -316,8 +438,10 @@ def part2_compare(ctx, label, mpi, scen, impl, model, stats):
         for j, tok in enumerate(toks):
             dev = orc.op(tok, ig[j])
             name = tok.split()[0]
-            if name.startswith("get") or name in ("shget", "spacing", "spacing0"):
+            if name.startswith("get") or name in ("shget", "spacing", "spacing0", "spacingu"):
                 stats["getter_calls"] += 1
+            if name in ("use", "usev", "shuse", "spacingu"):
+                stats["use_calls"] = stats.get("use_calls", 0) + 1
             elif name.startswith("set") or name == "shset":
                 stats["setter_calls"] += 1
             if dev is not None:
@@ -349,7 +473,7 @@ def run(ctx):
     spec = importlib.util.spec_from_file_location("groups_C20_mod", os.path.join(vlib.TOOLS, "c2g", "groups_C20.py"))
     g20 = importlib.util.module_from_spec(spec)
     spec.loader.exec_module(g20)
-    st = genall.run(["ApiC20", "AccessC20"])
+    st = genall.run(["ApiC20", "AccessC20", "UseC20"])
     for g, s in st.items():
         ctx.log("c2g", g, s)
         if s.startswith("FAILED"):
@@ -373,56 +497,76 @@ def run(ctx):
     # ---- part 2 -------------------------------------------------------------------------------
     harness = os.path.join(vlib.TOOLS, "harness", "c20_harness.c")
     env = dict(os.environ, ASAN_OPTIONS="detect_leaks=0")
-    scen = gen_scenarios(ctx.rng, 400 if ctx.quick else 8000)
+    pairs = gen_scenarios(ctx.rng, 400 if ctx.quick else 8000)
     if ctx.replay:
         rp = json.load(open(ctx.replay)).get("replay", {})
         if "scenario" in rp:
-            scen = [rp["scenario"]] + scen[:30]
-    text = "\n".join(scen) + "\n"
+            ser = str(rp.get("variant", "")).startswith("serial")
+            pairs = [(rp["scenario"] if not ser else "spacing0", rp["scenario"] if ser else "spacing0")] + pairs[:30]
+    scen_mpi, scen_ser = [a for a, _ in pairs], [b for _, b in pairs]
     stats = dict(getter_calls=0, setter_calls=0, scenarios=0)
     try:
         mexe = ctx.model("c20")
     except vlib.BuildError as e:
         ctx.tie_broken("c20 model build (generated definitions do not extract/compile)", str(e)[-1500:])
         mexe = None
+    model_cache = {}
 
-    def model_lines(mpi):
+    def model_lines(mpi, scen):
         if mexe is None:
             return None
-        rc, out, err = ctx.run_lines([mexe] + (["mpi"] if mpi else []), text, timeout=600)
-        if rc != 0:
-            ctx.tie_broken("c20 model run", "exit %s: %s" % (rc, err[-800:]))
-            return None
-        return out
+        key = (mpi, id(scen))
+        if key not in model_cache:
+            rc, out, err = ctx.run_lines([mexe] + (["mpi"] if mpi else []), "\n".join(scen) + "\n", timeout=600)
+            if rc != 0:
+                ctx.tie_broken("c20 model run", "exit %s: %s" % (rc, err[-800:]))
+                out = None
+            model_cache[key] = out
+        return model_cache[key]
 
-    scenfile = os.path.join(ctx.scratch, "c20_scenarios.txt")
-    open(scenfile, "w").write(text)
-
-    def run_impl(cmd, label, mpi):
+    def run_impl(cmd, label, mpi, scen, nranks=1):
         # the scenarios travel as a file (mpirun's stdin forwarding has crashed mpirun itself with long inputs)
-        rc, impl, err = ctx.run_lines(cmd + [scenfile], "", timeout=900, env=env)
+        scenfile = os.path.join(ctx.scratch, "c20_scenarios_%s.txt" % ("mpi" if mpi else "serial"))
+        open(scenfile, "w").write("\n".join(scen) + "\n")
+        outbase = scenfile + ".out"
+        for r in range(1, nranks):
+            if os.path.exists("%s.%d" % (outbase, r)):
+                os.unlink("%s.%d" % (outbase, r))
+        rc, impl, err = ctx.run_lines(cmd + [scenfile, outbase], "", timeout=900, env=env)
         if rc != 0 and mpi and re.search(r"mca_iof_hnp|orte_iof|mpirun\(\+0x", err):
             # the launcher died, not the program: run once more
             ctx.notes["mpirun_relaunched"] = ctx.notes.get("mpirun_relaunched", 0) + 1
-            rc, impl, err = ctx.run_lines(cmd + [scenfile], "", timeout=900, env=env)
+            rc, impl, err = ctx.run_lines(cmd + [scenfile, outbase], "", timeout=900, env=env)
         impl = [l for l in impl]
+        notes = [l for l in err.split("\n") if "c20_harness: note" in l]
+        if notes:
+            # results of the rounds themselves are C01/C02's subject: recorded, not judged here
+            ctx.notes.setdefault("round_result_notes", []).extend(notes[:5])
         if rc != 0:
-            k = max(0, len([l for l in impl if l != ""]) - 0)
-            k = min(k, len(scen) - 1)
+            k = min(max(0, len(impl) - 1), len(scen) - 1)
             ctx.violation("crash:%s" % label.replace(" ", "_"), "libsc (%s) ends the process (exit %s) in scenario '%s': %s" % (label, rc, scen[k][:160], err.strip()[-300:].replace("\n", " | ")),
                           dict(scenario=scen[k], variant=label, stderr=err[-1500:]))
             return
-        part2_compare(ctx, label, mpi, scen, impl, model_lines(mpi), stats)
+        part2_compare(ctx, label if nranks == 1 else label + " rank 0 of %d" % nranks, mpi, scen, impl, model_lines(mpi, scen), stats)
+        for r in range(1, nranks):
+            try:
+                other = open("%s.%d" % (outbase, r)).read().split("\n")
+            except OSError as e:
+                ctx.tie_broken("c20 harness output (%s)" % label, "rank %d wrote no output: %s" % (r, e))
+                continue
+            part2_compare(ctx, label + " rank %d of %d" % (r, nranks), mpi, scen, other, model_lines(mpi, scen), stats)
 
     v = ctx.variant(mpi="off", san=True)
     exe = ctx.cc([harness], os.path.join(ctx.scratch, "c20_serial"), v)
-    run_impl([exe], "serial release", False)
+    run_impl([exe], "serial release", False, scen_ser)
+    NP = 3
     try:
         vm = ctx.variant(mpi="ompi", san=False)
         exem = ctx.cc([harness], os.path.join(ctx.scratch, "c20_mpi"), vm)
-        run_impl(["mpirun", "--allow-run-as-root", "--oversubscribe", "-np", "1", exem], "ompi release", True)
+        run_impl(["mpirun", "--allow-run-as-root", "--oversubscribe", "-np", str(NP), exem], "ompi release", True, scen_mpi, NP)
     except vlib.BuildError as e:
         ctx.tie_broken("c20 OpenMPI build", str(e)[-1000:])
+    scen = scen_mpi
 
     ctx.cov["disagreements_checked"] = stats["scenarios"]
     ctx.cov["exhaustive"] = False
